@@ -9,7 +9,7 @@ from jaxtyping import Float
 from torch import Tensor
 
 from linear_operator.operators._linear_operator import IndexType, LinearOperator
-from linear_operator.operators.diag_linear_operator import ConstantDiagLinearOperator
+from linear_operator.operators.diag_linear_operator import ConstantDiagLinearOperator, DiagLinearOperator
 from linear_operator.operators.zero_linear_operator import ZeroLinearOperator
 
 from linear_operator.utils.broadcasting import _matmul_broadcast_shape
@@ -111,7 +111,8 @@ class IdentityLinearOperator(ConstantDiagLinearOperator):
         self: Float[LinearOperator, "... #M #N"],
         other: Union[Float[torch.Tensor, "... #M #N"], Float[LinearOperator, "... #M #N"]],
     ) -> Float[LinearOperator, "... M N"]:
-        return other
+        # The elementwise product with the identity keeps only the diagonal of other
+        return DiagLinearOperator(self._diag * other._diagonal())
 
     def _permute_batch(self, *dims: int) -> LinearOperator:
         batch_shape = self.diag_values.permute(*dims, -1).shape[:-1]
